@@ -454,6 +454,36 @@ impl Property for C18 {
                 e.verif_bus().write_io(0xFFFD, 8 + chb);
                 let r8 = e.verif_bus().read_io(0xFFFD);
                 let after = swing_of(&mut e)?;
+                // the same across an SZX load (no AY chunk in the file), on a machine configured for mono output: the
+                // channel stays on both sides with equal weight
+                {
+                    let mcfg = MCfg { m128: cfg.m128, ay: true, ay_mode: 0, beeper: false, rate: 44100, ..Default::default() };
+                    let mut m = new_emu(&mcfg);
+                    wr(&mut m, 7, 0x3F & !(1 << chb));
+                    wr(&mut m, chb * 2, tp as u8);
+                    wr(&mut m, chb * 2 + 1, (tp >> 8) as u8);
+                    for k in 0..3u8 {
+                        wr(&mut m, 8 + k, if k == chb { 0x0F } else { 0 });
+                    }
+                    let mut sn2 = sn.clone();
+                    sn2.ay_regs = [0; 16];
+                    sn2.ay_regs[7] = 0x3F & !(1 << chb);
+                    sn2.ay_regs[(chb * 2) as usize] = tp as u8;
+                    sn2.ay_regs[(chb * 2 + 1) as usize] = (tp >> 8) as u8;
+                    sn2.ay_regs[(8 + chb) as usize] = 0x0F;
+                    let bytes = crate::snapfmt::write_szx(&sn2, &crate::snapfmt::SzxOptions { with_ay: true, ..Default::default() });
+                    m.load_snapshot(rustzx_core::host::Snapshot::Szx(crate::host::SimAsset::plain(bytes))).map_err(|x| Fail::new("C18.load", "", format!("{:?}", x)))?;
+                    let mut v = vec![];
+                    for _ in 0..3 {
+                        run_frames(&mut m, 1).map_err(|x| Fail::new("C18.run", "", x))?;
+                        drain_audio(&mut m, &mut v);
+                    }
+                    let worst = v.iter().map(|s| (s.0 - s.1).abs()).fold(0f32, f32::max);
+                    let swing = v.iter().fold((f32::MAX, f32::MIN), |a, s| (a.0.min(s.0), a.1.max(s.0)));
+                    if swing.1 - swing.0 > 0.05 && worst > 1e-4 {
+                        return Err(Fail::new("C18.panning", "after=szx_load,mode=mono", format!("mono output mode: after the host loaded an SZX snapshot left and right differ by up to {:.3} (channel {})", worst, ch)));
+                    }
+                }
                 if r8 & 0x0F == 0x0F && before > 0.05 && after < before * 0.5 {
                     return Err(Fail::new(
                         "C18.silent_although_registers_say_otherwise",
@@ -705,6 +735,11 @@ impl Property for C18 {
                         for k in 0..3u8 {
                             chip.w(8 + k, 15);
                             chip.w(k * 2 + 1, 0);
+                            // (the channel had an ordinary period before; it is changed through the fine register alone)
+                            chip.w(k * 2, 60 + k);
+                        }
+                        chip.gen(300, None);
+                        for k in 0..3u8 {
                             chip.w(k * 2, if k as usize == ch { v } else { 37 + k });
                         }
                         let mut out = vec![];
